@@ -529,7 +529,11 @@ def rand_graph(g, rng, n_ops=6, allow_unsupported=True, allow_emb=True,
         g.classes.add('repeated_operand')
       if u is None:
         continue
-      outs = [getattr(g, k)(u, t) if const_first else getattr(g, k)(t, u)]
+      kw = {}
+      if k != 'maximum' and rng.random() < 0.25:
+        kw['act'] = int(rng.choice([1, 3]))      # fused RELU / RELU6, as in residual blocks
+        g.classes.add('fused_activation_binary')
+      outs = [getattr(g, k)(u, t, **kw) if const_first else getattr(g, k)(t, u, **kw)]
       ins.append(u)
     elif k == 'reshape':
       n = int(np.prod(sh))
@@ -1083,3 +1087,91 @@ def shuffle_indices(spec, rng, tensors=True, buffers=True, signatures=True, dang
     sigs = [by_key[s.signatureKey.decode()] for s in m.signatureDefs]
   return ModelSpec(bytes(flatbuffer_utils.convert_object_to_bytearray(m)), sigs, spec.classes | {'shuffled_indices'},
                    spec.label + '+shuffled')
+
+
+# ---------------------------------------------------------------- sensitivity probe (C07)
+
+def noise_injected(content, steps, weight_bits, rng, gamma=1.0, si=0):
+  """The float model `content` with additive noise of quantization-step size on every runtime float tensor that an
+  operator reads and on every float constant: t' = t + n_t (a constant ADD inserted behind the producer / the graph
+  input, consumers rewired, graph outputs untouched), n_t ~ U(-gamma/2, gamma/2) * steps[name]; constants get
+  U(-1/2, 1/2) of their own symmetric step at `weight_bits`.  Running it in the FLOAT interpreter shows how far the
+  float network itself carries perturbations of the size quantization must introduce -- its conditioning -- without
+  consulting the quantizer."""
+  m = read(content)
+  sg = m.subgraphs[si]
+  add_idx = None
+  for i, c in enumerate(m.operatorCodes):
+    if c.builtinCode == BO.ADD:
+      add_idx = i
+  if add_idx is None:
+    c = S.OperatorCodeT()
+    c.builtinCode = BO.ADD
+    c.deprecatedBuiltinCode = BO.ADD
+    c.version = 1
+    m.operatorCodes.append(c)
+    add_idx = len(m.operatorCodes) - 1
+
+  def has_data(t):
+    d = m.buffers[int(t.buffer)].data
+    return d is not None and len(d) > 0
+
+  # constants: perturb in place (every float constant of rank >= 1 with more than one element, biases excluded by size heuristic is not
+  # needed -- a bias perturbed by half a weight step is far below its own effect)
+  done = set()
+  for t in sg.tensors:
+    if t.type == TT.FLOAT32 and has_data(t) and int(t.buffer) not in done:
+      done.add(int(t.buffer))
+      a = np.frombuffer(bytes(m.buffers[int(t.buffer)].data), dtype=np.float32).copy()
+      if a.size == 0:
+        continue
+      stepw = float(np.max(np.abs(a))) / (2 ** (weight_bits - 1) - 1)
+      a = a + (rng.random(a.shape).astype(np.float32) - 0.5) * np.float32(stepw)
+      m.buffers[int(t.buffer)].data = np.frombuffer(a.astype(np.float32).tobytes(), dtype=np.uint8)
+  consumed = set()
+  for op in sg.operators:
+    consumed.update(int(i) for i in op.inputs if int(i) >= 0)
+  remap = {}
+  new_ops = []
+
+  def inject(ti):
+    t = sg.tensors[ti]
+    name = t.name.decode()
+    if t.type != TT.FLOAT32 or has_data(t) or ti not in consumed or name not in steps or not steps[name] > 0:
+      return
+    shape = [int(d) for d in (t.shape if t.shape is not None else [])]
+    n = ((rng.random(shape) - 0.5) * gamma * steps[name]).astype(np.float32)
+    b = S.BufferT()
+    b.data = np.frombuffer(n.tobytes(), dtype=np.uint8)
+    m.buffers.append(b)
+    nt = S.TensorT()
+    nt.name = t.name + b'__noise'
+    nt.shape = shape
+    nt.type = TT.FLOAT32
+    nt.buffer = len(m.buffers) - 1
+    sg.tensors.append(nt)
+    m.buffers.append(S.BufferT())
+    yt = S.TensorT()
+    yt.name = t.name + b'__noisy'
+    yt.shape = shape
+    yt.type = TT.FLOAT32
+    yt.buffer = len(m.buffers) - 1
+    sg.tensors.append(yt)
+    o = S.OperatorT()
+    o.opcodeIndex = add_idx
+    o.inputs = [ti, len(sg.tensors) - 2]
+    o.outputs = [len(sg.tensors) - 1]
+    o.builtinOptions = S.AddOptionsT()
+    o.builtinOptionsType = S.BuiltinOptions.AddOptions
+    new_ops.append(o)
+    remap[ti] = len(sg.tensors) - 1
+
+  for ti in sg.inputs:
+    inject(int(ti))
+  for op in sg.operators:
+    op.inputs = [remap.get(int(i), int(i)) if int(i) >= 0 else -1 for i in op.inputs]
+    new_ops.append(op)
+    for o in op.outputs:
+      inject(int(o))
+  sg.operators = new_ops
+  return bytes(flatbuffer_utils.convert_object_to_bytearray(m))
